@@ -269,7 +269,7 @@ def _search_shacrypt(ctx, broken, seeds):
         if salt:
             for cls, ref, ident in ((SHA256Hasher, py_sha256_crypt, "$5$"), (SHA512Hasher, py_sha512_crypt, "$6$")):
                 got = cls(rounds=rounds).hash(pwd, salt=salt)
-                want = f"{ident}rounds={rounds}${salt}${ref(pwd, salt.encode(), rounds)}" if rounds != 5000 else f"{ident}{salt}${ref(pwd, salt.encode(), rounds)}"
+                want = f"{ident}rounds={rounds}${salt}${ref(pwd, salt.encode(), rounds)}"      # libpass always writes the rounds field
                 if got != want:
                     return {"input": {"op": "libpass", "format": cls.__name__, "pwd": pwd.hex(), "salt": salt, "rounds": rounds}, "observed": got, "expected": want}
     return None
